@@ -32,6 +32,7 @@ type caseSpec struct {
 	Sessions int
 	TxPer    int
 	Variant  int
+	DDL      bool // DDL inside transactions (ALTER TABLE … DROP CONSTRAINT / ADD COLUMN, CREATE INDEX)
 }
 
 func openDB(c *fw.Ctx, name string) (*db, error) {
@@ -126,7 +127,7 @@ func engineCase(c *fw.Ctx, data []byte) {
 		readOnlySession := cs.Sessions > 1 && s == cs.Sessions-1 && cs.Idx%2 == 0
 		for i := 0; i < cs.TxPer; i++ {
 			ro := readOnlySession || sr.IntN(6) == 0
-			progs[s] = append(progs[s], genProg(sr, sch, fmt.Sprintf("%d.%d.%d", cs.Idx, s, i), s, cs.Sessions > 1, ro))
+			progs[s] = append(progs[s], genProg(sr, sch, fmt.Sprintf("%d.%d.%d", cs.Idx, s, i), s, cs.Sessions > 1, ro, cs.DDL))
 		}
 	}
 	base := d.st.LastCommittedTxID()
@@ -155,6 +156,7 @@ func Run(c *fw.Ctx) {
 		if i%3 == 0 {
 			cs.Sessions = 4
 		}
+		cs.DDL = i%2 == 1
 		b, _ := json.Marshal(cs)
 		cases = append(cases, b)
 	}
